@@ -32,6 +32,9 @@ def gen_points(rng, n, style, scale=1.0, shift=0.0):
         elif style == "narrow":         # all persistences similar: many near-ties
             b = rng.random()
             d = b + 0.25 + rng.random() * 1e-3
+        elif style == "late-short":     # late-born, short-lived classes: persistence << coordinates
+            b = 100.0 + 900.0 * rng.random()
+            d = b * (1.0 + 10.0 ** (-rng.uniform(3.0, 6.5)))
         else:
             raise ValueError(style)
         pts.append([b * scale + shift, d * scale + shift])
@@ -39,7 +42,7 @@ def gen_points(rng, n, style, scale=1.0, shift=0.0):
 
 
 def gen_diagram(rng, max_n, style=None, allow_inf=True, allow_diag=True, scale=None, shift=None):
-    style = style or rng.choice(("lattice", "lattice", "ilattice", "float", "narrow"))
+    style = style or rng.choice(("lattice", "lattice", "ilattice", "float", "narrow", "late-short"))
     if scale is None:
         scale = rng.choice((1.0, 1.0, 1.0, 1e-6, 1e-3, 7.0, 1e3, 1e6))
     if shift is None:
@@ -104,9 +107,30 @@ def perturbed_copy(rng, A, scale, max_n, style):
     return B[:max_n]
 
 
+def repaired_copy(rng, A):
+    """Same multiset of births and same multiset of deaths, paired differently."""
+    fin = [p for p in A if math.isfinite(p[1])]
+    bs = sorted(p[0] for p in fin)
+    ds = sorted(p[1] for p in fin)
+    # any pairing of sorted births with a permutation of deaths that keeps d >= b: rotate within
+    # the feasible suffix
+    out = []
+    rest = ds[:]
+    for b in reversed(bs):
+        ok = [d for d in rest if d >= b]
+        d = rng.choice(ok)
+        rest.remove(d)
+        out.append([b, d])
+    rng.shuffle(out)
+    return out
+
+
 def gen_pair(rng, max_n, allow_inf=True):
     A, style, scale, shift = gen_diagram(rng, max_n, allow_inf=allow_inf)
-    if rng.random() < 0.4:
+    r = rng.random()
+    if r < 0.1 and len(A) >= 2:
+        return A, repaired_copy(rng, A)
+    if r < 0.45:
         return A, perturbed_copy(rng, A, scale, max_n, style)
     if rng.random() < 0.7:
         B, _, _, _ = gen_diagram(rng, max_n, style=style, scale=scale, shift=shift, allow_inf=allow_inf)
